@@ -1123,6 +1123,331 @@ fn samples(rng: &mut Rng, rep: &mut Report, maxlen: usize) {
 }
 
 // ---------------------------------------------------------------------------------------------
+// sampled rule on degenerate and special grids
+//
+// The quantifier contains a = b (spacing exactly ±0, all abscissae equal), a > b (negative spacing,
+// decreasing abscissae) and intervals of any width inside ±1e3 (spacings down to the subnormal range);
+// tabulated data with jumps repeat an abscissa (zero-width panels). The reference is the same
+// Σ (y_i+y_{i−1})/2·Δx_i in double-double, evaluated with all widths multiplied by 2^k (k = minus the
+// binary exponent of the largest width) so that it neither underflows nor overflows; the observed value
+// is multiplied by the same power of two (exact) before the comparison.
+
+/// floor(log2 |x|) for finite non-zero x (subnormals included)
+fn ilog2(x: f64) -> i32 {
+    let m = x.abs();
+    if m < f64::MIN_POSITIVE {
+        return ilog2(m * 2f64.powi(200)) - 200;
+    }
+    ((m.to_bits() >> 52) & 0x7ff) as i32 - 1023
+}
+/// x·2^k in steps (exact unless the result itself leaves the normal range)
+fn scale2(mut x: f64, mut k: i32) -> f64 {
+    while k > 0 {
+        let s = k.min(900);
+        x *= 2f64.powi(s);
+        k -= s;
+    }
+    while k < 0 {
+        let s = (-k).min(900);
+        x *= 2f64.powi(-s);
+        k += s;
+    }
+    x
+}
+/// v rounded to 30 significant bits (so that small integer multiples of it are exact)
+fn quant30(v: f64) -> f64 {
+    if v == 0.0 || !v.is_finite() {
+        return v;
+    }
+    let e = ilog2(v);
+    scale2(scale2(v, 29 - e).round(), e - 29)
+}
+
+struct SRef {
+    k: i32,
+    n: usize,
+    /// reference integral × 2^k
+    sref: Dd,
+    /// Σ |terms| × 2^k
+    sabs: f64,
+}
+impl SRef {
+    fn new(y: &[f64], xs: Option<&[f64]>, dx: Option<f64>) -> SRef {
+        let n = y.len();
+        let w: Vec<Dd> = (1..n)
+            .map(|i| match xs {
+                Some(x) => Dd::sum2(x[i], -x[i - 1]),
+                None => Dd::new(dx.unwrap_or(1.0)),
+            })
+            .collect();
+        let wmax = w.iter().fold(0.0f64, |m, d| m.max(d.hi.abs()));
+        let k = if wmax > 0.0 && wmax.is_finite() { -ilog2(wmax) } else { 0 };
+        let mut sref = Dd::ZERO;
+        let mut sabs = 0.0;
+        for i in 1..n {
+            let d = Dd { hi: scale2(w[i - 1].hi, k), lo: scale2(w[i - 1].lo, k) };
+            let t = Dd::sum2(y[i], y[i - 1]) * Dd::new(0.5) * d;
+            sref = sref + t;
+            sabs += t.f().abs();
+        }
+        SRef { k, n, sref, sabs }
+    }
+    /// rounding allowance × 2^k: the usual 8γ_{n+3}·Σ|terms| plus 8 units of the subnormal grid per panel
+    /// (a product that falls into the subnormal range is rounded to within half a unit)
+    fn tol(&self) -> f64 {
+        8.0 * gamma_n(self.n + 3) * self.sabs + scale2(8.0 * self.n as f64, self.k - 1074) + 1e-300
+    }
+    /// |q − reference| × 2^k (infinite for NaN)
+    fn err(&self, q: f64) -> f64 {
+        let e = (Dd::new(scale2(q, self.k)) - self.sref).f().abs();
+        if e.is_nan() {
+            f64::INFINITY
+        } else {
+            e
+        }
+    }
+    fn expected(&self) -> f64 {
+        scale2(self.sref.f(), -self.k)
+    }
+}
+
+/// sample values: generic, constant, small integers (exact zeros), one-signed, with signed zeros
+fn special_y(rng: &mut Rng, n: usize) -> Vec<f64> {
+    let ys = 10f64.powf(rng.range(-3.0, 3.0));
+    match rng.usize(0, 5) {
+        0 | 1 => (0..n).map(|_| rng.normal() * ys).collect(),
+        2 => {
+            let c = if rng.bool() { 1.0 } else { rng.normal() * ys };
+            vec![if c == 0.0 { 1.0 } else { c }; n]
+        }
+        3 => (0..n).map(|_| rng.int(-9, 9) as f64).collect(),
+        4 => (0..n).map(|_| (0.5 + rng.f64()) * ys).collect(),
+        _ => (0..n).map(|_| if rng.chance(0.3) { if rng.bool() { 0.0 } else { -0.0 } } else { rng.normal() * ys }).collect(),
+    }
+}
+fn special_len(rng: &mut Rng, maxlen: usize) -> usize {
+    let n = match rng.usize(0, 3) {
+        0 => rng.usize(2, 9),
+        1 => *rng.choose(&[2usize, 3, 4, 5, 8, 9, 16, 17, 32, 33, 64, 65, 128, 129]),
+        _ => rng.log_range(2.0, 2000.99).floor() as usize,
+    };
+    n.clamp(2, maxlen.max(2))
+}
+
+/// one sampled-rule call against the reference; returns (value, reference) when the call returned
+fn sampled_call(rep: &mut Report, regime: &str, y: &[f64], xs: Option<&[f64]>, dx: Option<f64>) -> Option<(f64, SRef)> {
+    let r = SRef::new(y, xs, dx);
+    let detail = |obs: Value, extra: Value| json!({"y": jf(y), "x": xs.map(jf), "dx": dx.map(jnum), "n": y.len(), "observed": obs, "expected": jnum(r.expected()), "detail": extra});
+    match guard(|| trapezoid(y, xs, dx)) {
+        Err(msg) => {
+            rep.check("C07.trapezoid.no_panic", regime, false, || detail(json!({"panic": msg}), json!(null)));
+            None
+        }
+        Ok(q) => {
+            rep.check("C07.trapezoid.no_panic", regime, true, || json!(null));
+            let (err, tol) = (r.err(q), r.tol());
+            rep.note_max("worst_ratio.trapezoid_samples.special_grids", err / tol);
+            rep.check("C07.trapezoid.samples", regime, err <= tol, || detail(jnum(q), json!({"abs_err_scaled": jnum(err), "tol_scaled": tol, "scaled_by_2^k": r.k})));
+            Some((q, r))
+        }
+    }
+}
+/// a second call whose exact value is `sign`·(the first one's): compared on the first call's scale
+fn sampled_relation(rep: &mut Report, assertion: &str, regime: &str, what: &str, first: (f64, &SRef), sign: f64, y: &[f64], xs: Option<&[f64]>, dx: Option<f64>) {
+    let (q, r) = first;
+    match guard(|| trapezoid(y, xs, dx)) {
+        Err(msg) => {
+            rep.check("C07.trapezoid.no_panic", regime, false, || json!({"relation": what, "y": jf(y), "x": xs.map(jf), "dx": dx.map(jnum), "panic": msg}));
+        }
+        Ok(q2) => {
+            let e = (Dd::new(scale2(q2, r.k)) - Dd::new(scale2(sign * q, r.k))).f().abs();
+            let e = if e.is_nan() { f64::INFINITY } else { e };
+            let tol = 2.0 * r.tol();
+            rep.note_max(&format!("worst_ratio.{}", assertion), e / tol);
+            rep.check(assertion, regime, e <= tol, || json!({"relation": what, "y": jf(y), "x": xs.map(jf), "dx": dx.map(jnum), "n": y.len(), "first_call": jnum(q), "second_call": jnum(q2), "expected_second_call": jnum(sign * q), "exact_integral_first_call": jnum(r.expected()), "tol_scaled": tol, "scaled_by_2^k": r.k}));
+        }
+    }
+}
+
+const DX_CLASSES: [&str; 9] = [
+    "samples:dx=+0(a=b)",
+    "samples:dx=-0(a=b)",
+    "samples:dx=+-1",
+    "samples:dx<0",
+    "samples:dx=power-of-two",
+    "samples:dx-tiny(2^-1000..2^-500)",
+    "samples:dx-subnormal",
+    "samples:dx-huge(2^100..2^500)",
+    "samples:dx=None-vs-unit-spacing",
+];
+
+/// spacing form on special spacings: reference value, oddness in dx, agreement with the abscissa form on
+/// the same (exactly representable) grid x_i = (j0 + i)·dx
+fn samples_special_dx(rng: &mut Rng, rep: &mut Report, maxlen: usize, class: usize) {
+    let regime = DX_CLASSES[class];
+    let n = special_len(rng, maxlen);
+    let y = special_y(rng, n);
+    let sgn = if rng.bool() { 1.0 } else { -1.0 };
+    let dx: Option<f64> = match class {
+        0 => Some(0.0),
+        1 => Some(-0.0),
+        2 => Some(sgn),
+        3 => Some(-quant30(rng.log_range(1e-3, 10.0))),
+        4 => Some(sgn * 2f64.powi(rng.int(-40, 10) as i32)),
+        5 => Some(sgn * quant30(scale2(1.0 + rng.f64(), -(rng.int(500, 1000) as i32)))),
+        6 => Some(sgn * f64::from_bits(if rng.chance(0.3) { 1u64 << rng.usize(0, 51) } else { rng.int(1, (1 << 22) - 1) as u64 })),
+        7 => Some(sgn * quant30(scale2(1.0 + rng.f64(), rng.int(100, 500) as i32))),
+        _ => None,
+    };
+    rep.case(regime);
+    rep.seen(if n <= 9 { "samples:len=2..9" } else if n <= 1000 { "samples:len=10..1000" } else { "samples:len>1000" }, 1);
+    rep.distinct(Hasher::new().s(regime).fs(&y).f(dx.unwrap_or(7.0)).finish(), n >= 3 && y.iter().any(|v| *v != 0.0));
+    let Some((q, r)) = sampled_call(rep, regime, &y, None, dx) else { return };
+    let step = dx.unwrap_or(1.0);
+    // I(−dx) = −I(dx)
+    sampled_relation(rep, "C07.trapezoid.odd_in_dx", regime, "trapezoid(y, None, -dx) = -trapezoid(y, None, dx)", (q, &r), -1.0, &y, None, Some(-step));
+    if dx.is_none() {
+        sampled_relation(rep, "C07.trapezoid.default_is_unit_spacing", regime, "trapezoid(y, None, None) = trapezoid(y, None, 1.0)", (q, &r), 1.0, &y, None, Some(1.0));
+    }
+    // the abscissa form on the same grid (every x_i exact: dx has <= 30 significant bits, |j0 + i| < 2^21)
+    let xs: Vec<f64> = if step == 0.0 {
+        let rv = rng.range(-1e3, 1e3);
+        let c = *rng.choose(&[0.0, -0.0, 1.0, -1000.0, 1000.0, rv]);
+        vec![c; n]
+    } else {
+        let j0 = match rng.usize(0, 2) {
+            0 => 0,
+            1 => -(rng.int(0, n as i64 - 1)),
+            _ => rng.int(-(1 << 20), 1 << 20),
+        };
+        (0..n as i64).map(|i| (j0 + i) as f64 * step).collect()
+    };
+    let exact_grid = (1..n).all(|i| xs[i] - xs[i - 1] == step);
+    if exact_grid {
+        rep.seen("samples:dx-form-vs-abscissa-form", 1);
+        sampled_relation(rep, "C07.trapezoid.dx_form_equals_abscissa_form", regime, "trapezoid(y, x, None) with x_i = (j0+i)*dx equals trapezoid(y, None, dx)", (q, &r), 1.0, &y, Some(&xs), None);
+        // and the abscissa form against its own reference
+        let _ = sampled_call(rep, regime, &y, Some(&xs), None);
+    } else {
+        rep.inconclusive(format!("special-dx generator: grid (j0+i)*dx is not exact for dx = {:e}", step));
+    }
+    rep.sample(|| json!({"rule": "trapezoid(samples)", "regime": regime, "n": n, "dx": dx.map(jnum), "observed": jnum(q), "expected": jnum(r.expected())}));
+}
+
+const X_CLASSES: [&str; 5] = [
+    "samples:x-all-equal(a=b)",
+    "samples:x-repeated(zero-width-panels)",
+    "samples:x-decreasing(a>b)",
+    "samples:x-contains-signed-zero",
+    "samples:x-tiny-or-subnormal-scale",
+];
+
+/// abscissa form on special grids: reference value, reversal antisymmetry, invariance under duplicating a
+/// sample (a zero-width panel)
+fn samples_special_x(rng: &mut Rng, rep: &mut Report, maxlen: usize, class: usize) {
+    let regime = X_CLASSES[class];
+    let n = special_len(rng, maxlen);
+    let y = special_y(rng, n);
+    // strictly increasing dyadic grid (multiples of 2^-10 inside ±1e3) with spacing ratios up to 2^12
+    let increasing = |rng: &mut Rng, m: usize| -> Vec<f64> {
+        let big = if rng.bool() { 1i64 } else { 1 << rng.usize(0, 12) };
+        let mut steps: Vec<i64> = (0..m).map(|_| if rng.chance(0.5) { 1 } else { rng.int(1, big.max(1)) }).collect();
+        let total: i64 = steps.iter().sum();
+        let room = 2_000i64 << 10;
+        if total > room {
+            for s in steps.iter_mut() {
+                *s = 1;
+            }
+        }
+        let total: i64 = steps.iter().sum();
+        let start = rng.int(-(1000i64 << 10), (1000i64 << 10) - total);
+        let mut c = start;
+        steps
+            .iter()
+            .map(|s| {
+                let v = c as f64 / 1024.0;
+                c += s;
+                v
+            })
+            .collect()
+    };
+    let xs: Vec<f64> = match class {
+        0 => {
+            let (rv, rs) = (rng.range(-1e3, 1e3), rng.range(-1.0, 1.0));
+            let c = *rng.choose(&[0.0, -0.0, 1.0, -1.0, 1000.0, -1000.0, rv, rs]);
+            vec![c; n]
+        }
+        1 => {
+            // every abscissa repeated 1..3 times (at least one repeat)
+            let mut v = Vec::with_capacity(n);
+            let base = increasing(rng, n);
+            let mut j = 0;
+            while v.len() < n {
+                let r = if v.is_empty() { 2 } else { *rng.choose(&[1usize, 1, 2, 3]) };
+                for _ in 0..r.min(n - v.len()) {
+                    v.push(base[j]);
+                }
+                j += 1;
+            }
+            v
+        }
+        2 => {
+            let mut v = increasing(rng, n);
+            v.reverse();
+            v
+        }
+        3 => {
+            // a grid through 0 whose zero entry is +0.0, −0.0, or the pair (−0.0, +0.0) / (+0.0, −0.0)
+            let h = quant30(rng.log_range(1e-3, 2.0)) * if rng.chance(0.25) { -1.0 } else { 1.0 };
+            let jr = rng.usize(0, n - 1);
+            let j0 = *rng.choose(&[0usize, n - 1, jr]);
+            let mut v: Vec<f64> = (0..n).map(|i| (i as f64 - j0 as f64) * h).collect();
+            let z = if rng.bool() { 0.0 } else { -0.0 };
+            v[j0] = z;
+            if n >= 3 && rng.chance(0.4) {
+                // shift the upper part down by one slot: two zero abscissae of opposite sign in a row
+                let j1 = if j0 + 1 < n { j0 + 1 } else { j0 - 1 };
+                let (lo, hi) = (j0.min(j1), j0.max(j1));
+                for i in (hi + 1..n).rev() {
+                    v[i] = v[i - 1];
+                }
+                v[lo] = z;
+                v[hi] = -z;
+            }
+            v
+        }
+        _ => {
+            // integer multiples of 2^-1074 (subnormal), 2^-1040, 2^-700 or 2^-500
+            let e = *rng.choose(&[-1074, -1074, -1040, -700, -500]);
+            let mut c = rng.int(-(1 << 20), 1 << 20);
+            let dir = if rng.chance(0.25) { -1 } else { 1 };
+            (0..n)
+                .map(|_| {
+                    let v = scale2(c as f64, e);
+                    let top = 1i64 << rng.usize(0, 10);
+                    c += dir * rng.int(1, top);
+                    v
+                })
+                .collect()
+        }
+    };
+    rep.case(regime);
+    rep.seen(if n <= 9 { "samples:len=2..9" } else if n <= 1000 { "samples:len=10..1000" } else { "samples:len>1000" }, 1);
+    rep.distinct(Hasher::new().s(regime).fs(&y).fs(&xs).finish(), n >= 3 && y.iter().any(|v| *v != 0.0));
+    let Some((q, r)) = sampled_call(rep, regime, &y, Some(&xs), None) else { return };
+    // reversal: the same polygon traversed from the other end
+    let (yr, xr): (Vec<f64>, Vec<f64>) = (y.iter().rev().copied().collect(), xs.iter().rev().copied().collect());
+    sampled_relation(rep, "C07.trapezoid.reversal_antisymmetry", regime, "trapezoid(reverse y, reverse x) = -trapezoid(y, x)", (q, &r), -1.0, &yr, Some(&xr), None);
+    // a duplicated sample adds a zero-width panel
+    let j = rng.usize(0, n - 1);
+    let (mut y2, mut x2) = (y.clone(), xs.clone());
+    y2.insert(j, y[j]);
+    x2.insert(j, xs[j]);
+    sampled_relation(rep, "C07.trapezoid.duplicate_sample_invariance", regime, "duplicating sample j (a zero-width panel) leaves the integral unchanged", (q, &r), 1.0, &y2, Some(&x2), None);
+    rep.sample(|| json!({"rule": "trapezoid(samples)", "regime": regime, "n": n, "x_head": jf(&xs[..n.min(6)]), "observed": jnum(q), "expected": jnum(r.expected())}));
+}
+
+// ---------------------------------------------------------------------------------------------
 // periodic integrands over whole and half periods (tolerance-driven Romberg)
 //
 // A T-periodic integrand integrated over a whole number of periods takes one value at a, at b and — from
@@ -1606,7 +1931,7 @@ fn nested_twin(rng: &mut Rng, rep: &mut Report, combo: usize, kmax: usize) {
 }
 
 pub fn run(cfg: &Cfg, rep: &mut Report) {
-    rep.rule = "rule x integrand x interval evaluations. intervals: end points in +-1e3 (wide, unit-scale, symmetric, narrow-far-from-0, dyadic, [0,c]), 40% with a > b, a = b separately; trapz panels 1..4096; romberg(eps=0) level budgets 2..12 on monomials/random polynomials up to degree 2k-1 (<= 23) and 13..20 on degree <= 3; quad5 degrees 0..9 (10..19 recorded, not asserted); linearity and antisymmetry per rule; 22 smooth integrands for the trapezoid error bound and romberg with eps in 1e-3..1e-12, budgets 2..20; sampled trapezoid lengths 2..1e4 with uniform x, non-uniform x (spacing ratios to 1e6), dx, default dx; narrow intervals |b-a| = |a|*2^-j (j = 10..50, |a| to 1e3, both orders) for all three rules with romberg(eps=0) budgets 2..20 on monomials to degree min(2k-1,19) / random polynomials to degree 12; node-aliasing polynomials C + s*r*prod(x - node_i) over the 2, 3, 5, 9, 17 coarsest equispaced nodes of dyadic intervals for romberg(eps=0, smallest sufficient budget .. 20) and quad5. periodic integrands (sin^2, cos^2, products sin/cos(m.)·sin/cos(n.), shifted cosines, random trigonometric polynomials; periods 2pi, 1, 2, random) over 1..4 half periods from 0, symmetric about 0 or from any phase with romberg eps 1e-3..1e-12, budgets 8..14; catalogue entries with symmetric domain over exactly symmetric intervals; re-entrancy: all 9 (outer rule)(inner rule) pairs on iterated integrals of bivariate polynomials inside both exactness classes (rectangles and x-dependent inner limit) against the exact value, on smooth bivariate integrands (depth 2 and 3, romberg eps 0..1e-3) against the tabulated twin, and integrands that call another rule on the side. one evaluation = one relation checked (1-3 library calls). non-trivial = non-constant integrand, a != b (samples: length >= 3); distinct by (rule, parameters, limits, integrand)".into();
+    rep.rule = "rule x integrand x interval evaluations. intervals: end points in +-1e3 (wide, unit-scale, symmetric, narrow-far-from-0, dyadic, [0,c]), 40% with a > b, a = b separately; trapz panels 1..4096; romberg(eps=0) level budgets 2..12 on monomials/random polynomials up to degree 2k-1 (<= 23) and 13..20 on degree <= 3; quad5 degrees 0..9 (10..19 recorded, not asserted); linearity and antisymmetry per rule; 22 smooth integrands for the trapezoid error bound and romberg with eps in 1e-3..1e-12, budgets 2..20; sampled trapezoid lengths 2..1e4 with uniform x, non-uniform x (spacing ratios to 1e6), dx, default dx; sampled trapezoid on special grids (lengths 2..2000, block edges 2^k, 2^k+1): dx exactly +0.0 / -0.0, +-1, negative, powers of two, 2^-1000..2^-500, subnormal, 2^100..2^500, None, each also as abscissae x_i = (j0+i)*dx; abscissae all equal, repeated (zero-width panels), decreasing, through +-0.0 (also -0.0,+0.0 in a row), multiples of 2^-1074..2^-500; sample values generic / constant / small integers / one-signed / with signed zeros; narrow intervals |b-a| = |a|*2^-j (j = 10..50, |a| to 1e3, both orders) for all three rules with romberg(eps=0) budgets 2..20 on monomials to degree min(2k-1,19) / random polynomials to degree 12; node-aliasing polynomials C + s*r*prod(x - node_i) over the 2, 3, 5, 9, 17 coarsest equispaced nodes of dyadic intervals for romberg(eps=0, smallest sufficient budget .. 20) and quad5. periodic integrands (sin^2, cos^2, products sin/cos(m.)·sin/cos(n.), shifted cosines, random trigonometric polynomials; periods 2pi, 1, 2, random) over 1..4 half periods from 0, symmetric about 0 or from any phase with romberg eps 1e-3..1e-12, budgets 8..14; catalogue entries with symmetric domain over exactly symmetric intervals; re-entrancy: all 9 (outer rule)(inner rule) pairs on iterated integrals of bivariate polynomials inside both exactness classes (rectangles and x-dependent inner limit) against the exact value, on smooth bivariate integrands (depth 2 and 3, romberg eps 0..1e-3) against the tabulated twin, and integrands that call another rule on the side. one evaluation = one relation checked (1-3 library calls). non-trivial = non-constant integrand, a != b (samples: length >= 3); distinct by (rule, parameters, limits, integrand)".into();
     rep.assume("integrands are finite on the interval; smooth catalogue entries are used inside their natural domain only (exp on +-10, 1/x on [0.1,1e3], ...)");
     rep.assume("romberg linearity / antisymmetry / polynomial exactness are judged at eps = 0 (fixed tableau); with eps > 0 the stopping level depends on the integrand");
     rep.assume("romberg tolerance-order bound is asserted only when the exact-arithmetic method (reference tableau in double-double) converges within the level budget and its stopping criterion is not fooled (every level at which it could stop is within 10*eps*max(1,|I|)); other cases are counted under romberg:smooth:undecided(...) / criterion-fooled");
@@ -1614,6 +1939,7 @@ pub fn run(cfg: &Cfg, rep: &mut Report) {
     rep.assume("node-aliasing integrands C + s*r(u)*prod(u - node_i) on dyadic intervals (all abscissae exact): tolerance |b-a|*((|C| + sup|s r prod|)*(32 gamma_{N+4} + 16(d+2)u)) (+ the effect of quad5's rounded abscissae, 8u*X*d^2*sup/|h|); sup sampled at 32 points per node spacing, +50%; romberg at eps = 0 with budgets from the smallest k with 2k-1 >= degree up to 20");
     rep.assume("iterated integrals: an integrand may itself be computed with trapz / romberg / quad5 (the crate has no 2-D rule); tolerance = the rule's own polynomial bound on g(x) = inner integral, with P = 2Y*P(X,Y), plus 4|b-a| times the inner rule's bound; nested versus tabulated twin: 64 gamma_{N+4} |b-a| max|g| (linearity applied to the zero difference)");
     rep.assume("periodic family: reference = closed antiderivative at the (rounded) limits with allowance 16u*sum|terms| + 64u|b-a|; judged like the smooth catalogue (asserted only where the reference tableau converges genuinely within the budget)");
+    rep.assume("sampled rule on special grids: spacing exactly +0.0 / -0.0 and all-equal abscissae are the tabulated form of a = b (integral 0), negative spacing / decreasing abscissae of a > b; spacings down to the subnormal range are intervals of tiny width inside +-1e3; spacings 2^100..2^500 lie outside +-1e3 and are kept as a scale-invariance probe of the same formula (no overflow: |y| <= 1e4, n <= 2000); repeated abscissae are zero-width panels (data with jumps). Reference and observed value are compared after an exact multiplication by 2^k (k = -exponent of the largest width); allowance 8 gamma_{n+3} sum|terms| + 8n*2^-1074 (products that fall into the subnormal range); relations between two calls (oddness in dx, dx form = abscissa form on an exactly representable grid, reversal, duplicated sample, None = unit spacing) are judged at twice that allowance, not bit-wise");
     rep.assume("quad5 is required to be exact to degree 9 only; degrees 10..19 are recorded (info.*) but not asserted");
     rep.assume("max|f''| is an upper bound evaluated from the closed form at the end points and interior stationary points");
     let cat = catalogue();
@@ -1646,6 +1972,11 @@ pub fn run(cfg: &Cfg, rep: &mut Report) {
     par_cases(cfg, rep, 8, n_strapz, |_i, rng, rep| smooth_trapz(rng, rep, cat));
     par_cases(cfg, rep, 9, n_sromb, |_i, rng, rep| smooth_romberg(rng, rep, cat, max_levels));
     par_cases(cfg, rep, 10, n_samp, |_i, rng, rep| samples(rng, rep, maxlen));
+    // sampled rule on degenerate / special grids (classes in turn)
+    let n_sdx = cfg.pick(40, 400, 1) * DX_CLASSES.len();
+    let n_sx = cfg.pick(50, 500, 1) * X_CLASSES.len();
+    par_cases(cfg, rep, 20, n_sdx, |i, rng, rep| samples_special_dx(rng, rep, maxlen, i % DX_CLASSES.len()));
+    par_cases(cfg, rep, 21, n_sx, |i, rng, rep| samples_special_x(rng, rep, maxlen, i % X_CLASSES.len()));
     // narrow intervals (3 rules in turn; under Miri trapz and quad5 only: a 20-level tableau is 5e5 evaluations)
     par_cases(cfg, rep, 12, 3 * n_narrow, |i, rng, rep| exact_narrow(rng, rep, if cfg.miri() { [0, 2, 0][i % 3] } else { i % 3 }));
     if !cfg.miri() {
@@ -1704,6 +2035,10 @@ pub fn run(cfg: &Cfg, rep: &mut Report) {
             rep.require(r, 1);
         }
     }
+    for r in DX_CLASSES.iter().chain(X_CLASSES.iter()) {
+        rep.require(r, 1);
+    }
+    rep.require("samples:dx-form-vs-abscissa-form", DX_CLASSES.len() as u64);
     rep.require("trapz:narrow(w=|a|*2^-10..-50)", 1);
     rep.require("quad5:narrow(w=|a|*2^-10..-50)", 1);
     if !cfg.miri() {
